@@ -48,6 +48,8 @@ def run(chk: core.Check, tier: str, seed: int) -> None:
     pool = [gen.rand_doc(rng, depth=3, width=3, names=gen.PLAIN_NAMES, p_container=0.8) for _ in range(3)]
     pool.append({"a": [0, 1, {"a": 1, "b": 2, "c": None}], "b": {"a": "x", "b": [1, [2]]}, "c": 1, "d": [{"a": 0}, {"b": False}]})
     pool.append([[1, 2, 3], {"a": {"b": 1}}, "ab", 0, None, [{"a": 1, "b": 1}, {"a": 2}]])
+    # every presence combination of a, b, c, d (with values 1 / 2) as the children under test: tells groupings apart
+    pool.append([{k: (1 if (m >> i) & 2 == 0 else 2) for i, k in enumerate("abcd") if (m >> i) & 1} for m in range(16)])
     pool_enc = []
     for d in pool:
         try:
@@ -60,6 +62,18 @@ def run(chk: core.Check, tier: str, seed: int) -> None:
         r = impl.rec_str(jp, q, pool_enc, docs=pool_py)
         if r is not None:
             recs.append(r)
+    # serialisation inside function arguments: a user function with a LogicalType parameter takes any logical expression
+    from .. import probes  # noqa: PLC0415
+    sigs = [("bl", ["L"], "L"), ("vl", ["V", "L"], "L")]
+    lenv = probes.make_env(jp, sigs, [])
+    lextra = {"reg": probes.reg_records(sigs)}
+    largs = ["@.a", "!@.a", "!(@.a && @.b)", "!(@.a || @.b) && @.c", "(@.a || @.b) && @.c", "@.a || @.b && @.c", "!(@.a == 1)", "@.a == 1 || !(@.b < 2)",
+             "!(!(@.a))", "bl(!(@.a && @.b))", "!bl(@.a || @.b)", "(@.a && @.b) || (@.c && @.d)", "!(@.a && (@.b || @.c))", "@[?!(@.a && @.b)]"]
+    for a in largs:
+        for q in (f"$[?bl({a})]", f"$[?!bl({a})]", f"$[?bl({a}) && @.c]", f"$[?vl(@.c, {a})]", f"$[?bl(bl({a}) || @.d)]"):
+            r = impl.rec_str(jp, q, pool_enc, env=lenv, extra=lextra, docs=pool_py)
+            if r is not None:
+                recs.append(r)
     for r in recs:
         chk.nontrivial.add(tuple(r["q"]))
     chk.sample({"query": core.dec_text(recs[70]["q"]), "str": core.dec_text(recs[70]["s"]), "str2": core.dec_text(recs[70]["s2"])})
